@@ -69,7 +69,7 @@ def run(rec, cfg):
     MR.attach_find()
     rng = cfg.rng("c06")
     rules = MR.rule_instances()
-    n = cfg.scale(24, 12000)
+    n = cfg.scale(20, 12000)
 
     def drive(root, depth_limit=3, rules=rules, big=False):
         frontier = [root]
@@ -96,6 +96,8 @@ def run(rec, cfg):
         big = src == "big-text"
         root = RC.parse_start(text, allow_big=big)
         use = RC.rules_for(src, rules)
+        if root is not None and src == "long-text" and S.size(S.shadow(root)) > 0:
+            continue   # the purity monitor rebuilds the tree for every question: quadratic, too slow here
         if root is None:
             continue
         rec.arm("start:" + src)
